@@ -218,6 +218,11 @@ fn handle_diagnostics(
                     if let Some(content) = set.get(file_id) {
                         let id = files.add(file_id.to_string(), content.as_string());
                         files_to_ids.insert(file_id, id);
+                    } else if !file_id.to_string().is_empty() {
+                        // A file that is not part of the project (for example, because
+                        // it could not be read) still has a name worth showing
+                        let id = files.add(file_id.to_string(), empty_source);
+                        files_to_ids.insert(file_id, id);
                     }
                 }
             }
